@@ -69,7 +69,7 @@ TypesSinceUpd == Cardinality({i \in 1..Len(hist) : hist[i].op = "type" /\ i > La
 
 Type(w) ==
     /\ phase \in {"pre", "post"}
-    /\ (phase = "pre" => Cardinality({i \in 1..Len(hist) : hist[i].op = "type"}) < (IF Twice THEN 0 ELSE IF Deep THEN 2 ELSE 1))
+    /\ (phase = "pre" => Cardinality({i \in 1..Len(hist) : hist[i].op = "type"}) < (IF Twice THEN 0 ELSE 1))
     /\ (phase = "post" => TypesSinceUpd < 2)
     /\ memo' = IF Phon(cfg) /\ cfg.psug /\ w \notin DOMAIN memo THEN [x \in DOMAIN memo \cup {w} |-> IF x = w THEN loaded[w] ELSE memo[x]] ELSE memo
     /\ hist' = Append(hist, [op |-> "type", cfg |-> cfg, file |-> file, w |-> w])
